@@ -9,7 +9,7 @@ def queries(tier):
     return [
         Q("refcount_kernel", "C15/refcount.c", units=["mptcore/misc/refcount.c"], unwind_default=2,
           bounds="counter: all 2^64 values; raise or lower", outside="-"),
-        Q("metaref_assign", "C15/metaref.c", units=["mptcore/convert/data_converter.c"], unwind_default=2,
+        Q("metaref_assign", "C15/metaref.c", units=["mptcore/convert/data_converter.c", "mptcore/convert/data_convert_int.c", "mptcore/convert/data_convert_float.c", "mptcore/convert/data_convert_array.c", "mptcore/types/type_int.c", "mptcore/types/type_traits.c", "mptcore/misc/identifier.c", "mptcore/array/array_traits.c", "mptcore/meta/meta_reference_traits.c", "mptcore/event/command_traits.c", "mptcore/array/array_clone.c"], unwind_default=2,
           fp=[(r"_vptr\)\.addref", ["cm_addref"]), (r"_vptr\)\.unref", ["cm_unref"]), (r"convert", ["cm_conv"]), (r"harness", ["_mpt_metatype_wrap"])],
           bounds="slot empty/holding, new referent null/set, addref succeeding/failing", outside="other converter targets"),
         Q("buffer_handles", "C15/bufrefs.c", units=ARRAY_UNITS, harness_defines={"K": k}, unwind_default=k + 3, fp=BUF_FP,
